@@ -15,12 +15,14 @@
 package main
 
 import (
+	"errors"
 	"fmt"
 	"math/rand"
 	"sync/atomic"
 
 	sentinel "github.com/alibaba/sentinel-golang/api"
 	"github.com/alibaba/sentinel-golang/core/base"
+	cb "github.com/alibaba/sentinel-golang/core/circuitbreaker"
 	"github.com/alibaba/sentinel-golang/core/flow"
 	"github.com/alibaba/sentinel-golang/core/hotspot"
 	"github.com/alibaba/sentinel-golang/core/isolation"
@@ -43,9 +45,22 @@ type mod struct {
 	clear   func()
 	// prepare is called once per case before the initial load (isolation: hold one entry per resource)
 	prepare func(R, S string) func()
+	// afterLoad is called once after the initial load (breakers: trip the always-open breaker)
+	afterLoad func(R, S string)
+	// deny names the blocking rule of a generation (default: deny-<res>-<generation>)
+	deny func(res string, ver int) string
+	// noClear: the blocking rule's state does not survive a clear (an open breaker would be re-created closed)
+	noClear bool
 }
 
-func denyID(res string, ver int) string { return fmt.Sprintf("deny-%s-%d", res[len(res)-1:], ver) }
+var curMod *mod
+
+func denyID(res string, ver int) string {
+	if curMod != nil && curMod.deny != nil {
+		return curMod.deny(res, ver)
+	}
+	return fmt.Sprintf("deny-%s-%d", res[len(res)-1:], ver)
+}
 
 func flowMod() *mod {
 	list := func(res string, ver int) []*flow.Rule {
@@ -177,6 +192,57 @@ func hotMod() *mod {
 	return m
 }
 
+// breakers: the blocking rule is one UNCHANGED rule whose breaker is open for the whole case (retry timeout of an hour,
+// frozen clock); the rule in front of it changes with every generation, so every load rebuilds the list around the
+// kept breaker. A request that passes saw a list without it.
+func cbMod() *mod {
+	u := func(res string) string { return "U-" + res[len(res)-1:] }
+	list := func(res string, ver int) []*cb.Rule {
+		if ver < 0 {
+			return nil
+		}
+		inert := func(id string, retry uint32) *cb.Rule {
+			return &cb.Rule{Id: id, Resource: res, Strategy: cb.ErrorCount, RetryTimeoutMs: retry, MinRequestAmount: 1, StatIntervalMs: 10000, Threshold: 1e9}
+		}
+		return []*cb.Rule{inert("gate", uint32(1000+ver)),
+			{Id: u(res), Resource: res, Strategy: cb.ErrorCount, RetryTimeoutMs: 3600000, MinRequestAmount: 1, StatIntervalMs: 10000, Threshold: 1},
+			inert("allow", 500)}
+	}
+	m := &mod{name: "circuitbreaker", noClear: true}
+	m.deny = func(res string, ver int) string { return u(res) }
+	m.loadAll = func(R, S string, ver int) { cb.LoadRules(append(list(R, ver), list(S, 0)...)) }
+	m.loadRes = func(res string, ver int) {
+		if ver < 0 {
+			cb.ClearRulesOfResource(res)
+		} else {
+			cb.LoadRulesOfResource(res, list(res, ver))
+		}
+	}
+	m.ids = func(res string) (o []string) {
+		for _, r := range cb.GetRulesOfResource(res) {
+			o = append(o, r.Id)
+		}
+		return
+	}
+	m.entry = func(res string) (*base.SentinelEntry, *base.BlockError) { return sentinel.Entry(res) }
+	m.blocker = func(b *base.BlockError) string {
+		if r, ok := b.TriggeredRule().(*cb.Rule); ok && r != nil {
+			return r.Id
+		}
+		return "?"
+	}
+	m.clear = func() { cb.ClearRules() }
+	m.afterLoad = func(R, S string) {
+		for _, res := range []string{R, S} {
+			if e, b := sentinel.Entry(res); b == nil {
+				sentinel.TraceError(e, errors.New("trip"))
+				e.Exit()
+			}
+		}
+	}
+	return m
+}
+
 type stepD struct {
 	K   string `json:"k"`             // all | res | clear | other | req-R | req-S | get
 	Ver int    `json:"ver,omitempty"` // generation loaded by all / res
@@ -203,10 +269,11 @@ type reqRec struct {
 
 var run *vk.Run
 var caseNo int
-var mods = []*mod{flowMod(), isoMod(), hotMod()}
+var mods = []*mod{flowMod(), isoMod(), hotMod(), cbMod()}
 
 func gen(rng *rand.Rand) *caseDesc {
-	c := &caseDesc{Module: mods[rng.Intn(len(mods))].name}
+	gm := mods[rng.Intn(len(mods))]
+	c := &caseDesc{Module: gm.name}
 	ver := 0
 	upd := func() stepD {
 		ver++
@@ -216,6 +283,9 @@ func gen(rng *rand.Rand) *caseDesc {
 		case 2, 3:
 			return stepD{K: "res", Ver: ver}
 		case 4:
+			if gm.noClear {
+				return stepD{K: "res", Ver: ver}
+			}
 			return stepD{K: "clear"}
 		default:
 			return stepD{K: "other", Ver: ver}
@@ -253,7 +323,11 @@ func execute(c *caseDesc, ch coop.Chooser) {
 	if m.prepare != nil {
 		defer m.prepare(R, S)()
 	}
+	curMod = m
 	m.loadAll(R, S, 0)
+	if m.afterLoad != nil {
+		m.afterLoad(R, S)
+	}
 	seq := 0
 	loads := []loadRec{{ival{-2, -1}, 0}}
 	var reqs []reqRec
@@ -461,7 +535,7 @@ func main() {
 	vclock.New(1900000000000)
 	run = vk.Start("C15", "coop")
 	defer run.Finish()
-	run.Rule("schedule = (module flow / isolation / hotspot; 1-2 updaters x 1-2 updates of resource R: whole-set load, per-resource load, per-resource clear, load of an unrelated resource; 1-2 callers x 1-3 requests on R / on the un-churned always-block resource S / getter calls; choice sequence at every lock acquisition of the module's rule manager (and parameter caches) and every shimmed atomic access of the per-rule checks) under random walk, PCT d<=3 and bounded DFS; requests decided by one admissible list, S always blocked by its own rule, reported == enforced and final state = outcome of an update that finished last, termination. distinct = distinct (case, interleaving).")
+	run.Rule("schedule = (module flow / isolation / hotspot / circuitbreaker (an unchanged open breaker behind a rule that changes with every load); 1-2 updaters x 1-2 updates of resource R: whole-set load, per-resource load, per-resource clear, load of an unrelated resource; 1-2 callers x 1-3 requests on R / on the un-churned always-block resource S / getter calls; choice sequence at every lock acquisition of the module's rule manager (and parameter caches) and every shimmed atomic access of the per-rule checks) under random walk, PCT d<=3 and bounded DFS; requests decided by one admissible list, S always blocked by its own rule, reported == enforced and final state = outcome of an update that finished last, termination. distinct = distinct (case, interleaving).")
 	run.Assume("generation g is admissible for a request unless another update both began after g's update returned and returned before the request began", "lock acquisitions and the shimmed atomics are the scheduling points")
 	{
 		c0 := atomic.LoadUint64(&vatomic.Count)
